@@ -1,0 +1,136 @@
+//go:build verif
+
+// Contracts for package btree (comment-only; read by /verif/engine, never compiled into the package).
+//
+// Deductive scope: construction, the order-derived fill parameters with the arithmetic lemmas that make split and merge
+// respect the fill bounds (C07), the in-node binary search (C01/C07), and the size observers. The tree-level mutators
+// (insert/split/delete/rebalance), navigation and the iterator are NOT under contract: they are covered by the bounded
+// stand-in /verif/bounded/btree.go.tmpl (labelled bounded, never counted as proved).
+
+package btree
+
+//@ -- strict weak order on the three-way comparator c
+//@ pred SWO(c, w) := (forall x like w, y like w :: (c(x, y) < 0 <==> c(y, x) > 0))
+//@     && (forall x like w, y like w, z like w :: c(x, y) <= 0 && c(y, z) <= 0 ==> c(x, z) <= 0)
+//@ pred Cfg(t) := t != nil && t.m >= 3
+//@ -- entries of node x are non-nil and strictly ascending under t's comparator
+//@ pred NodeOK(t, x) := x != nil && (forall i :: 0 <= i && i < len(x.Entries) ==> x.Entries[i] != nil)
+//@     && (forall i, j :: 0 <= i && i < j && j < len(x.Entries) ==> t.Comparator(x.Entries[i].Key, x.Entries[j].Key) < 0)
+
+//@ func NewWith
+//@   requires comparator != nil
+//@   modifies nothing
+//@   panics-iff order < 3
+//@   ensures [C01 C07 C15 C17] fresh(result) && Cfg(result) && result.m == order && result.size == 0 && result.Root == nil && result.Comparator == comparator
+
+//@ func Tree.maxChildren
+//@   requires Cfg(tree)
+//@   modifies nothing
+//@   ensures [C07] result == tree.m
+
+//@ func Tree.minChildren
+//@   requires Cfg(tree)
+//@   modifies nothing
+//@   ensures [C07] ceil-half: 2 * result >= tree.m && 2 * result <= tree.m + 1
+//@   ensures [C07] result >= 2
+
+//@ func Tree.maxEntries
+//@   requires Cfg(tree)
+//@   modifies nothing
+//@   ensures [C07] result == tree.m - 1
+
+//@ func Tree.minEntries
+//@   requires Cfg(tree)
+//@   modifies nothing
+//@   ensures [C07] ceil-half-minus-one: 2 * (result + 1) >= tree.m && 2 * (result + 1) <= tree.m + 1
+//@   ensures [C07] result >= 1
+//@   ensures [C07] merge-fits: (result - 1) + result + 1 <= tree.m - 1
+//@   ensures [C07] borrow-leaves-enough: result + 1 <= tree.m - 1
+
+//@ func Tree.middle
+//@   requires Cfg(tree)
+//@   modifies nothing
+//@   ensures [C07] result == fdiv(tree.m - 1, 2)
+//@   ensures [C07] result >= 0 && result < tree.m
+//@   ensures [C07] split-left-fill: 2 * (result + 1) >= tree.m
+//@   ensures [C07] split-right-fill: 2 * (tree.m - 1 - result + 1) >= tree.m
+//@   ensures [C07] split-within-max: result <= tree.m - 1 && tree.m - 1 - result <= tree.m - 1
+
+//@ func Tree.isLeaf
+//@   requires node != nil
+//@   modifies nothing
+//@   ensures [C07] result == (len(node.Children) == 0)
+
+//@ func Tree.isFull
+//@   requires Cfg(tree) && node != nil
+//@   modifies nothing
+//@   ensures [C07] result == (len(node.Entries) == tree.m - 1)
+
+//@ func Tree.shouldSplit
+//@   requires Cfg(tree) && node != nil
+//@   modifies nothing
+//@   ensures [C07] result == (len(node.Entries) > tree.m - 1)
+
+//@ func Tree.search
+//@   requires tree != nil && tree.Comparator != nil && SWO(tree.Comparator, argof(tree.Comparator, 0)) && NodeOK(tree, node)
+//@   modifies nothing
+//@   ensures [C01 C07 C17] in-range: 0 <= index && index <= len(node.Entries) && (found ==> index < len(node.Entries))
+//@   ensures [C01 C07] hit: found ==> tree.Comparator(key, node.Entries[index].Key) == 0
+//@   ensures [C01 C07] below: (forall i :: 0 <= i && i < index ==> tree.Comparator(key, node.Entries[i].Key) > 0)
+//@   ensures [C01 C07] above: (forall i :: index <= i && i < len(node.Entries) && !(found && i == index) ==> tree.Comparator(key, node.Entries[i].Key) < 0)
+//@   loop 1:
+//@     invariant 0 <= low && high < len(node.Entries) && low <= high + 1
+//@     invariant (forall i :: 0 <= i && i < low ==> tree.Comparator(key, node.Entries[i].Key) > 0)
+//@     invariant (forall i :: high < i && i < len(node.Entries) ==> tree.Comparator(key, node.Entries[i].Key) < 0)
+//@     decreases high - low + 1
+
+//@ func Tree.Empty
+//@   requires tree != nil
+//@   modifies nothing
+//@   ensures [C15 C17 C18] result == (tree.size == 0)
+
+//@ func Tree.Size
+//@   requires tree != nil
+//@   modifies nothing
+//@   ensures [C15 C17 C18] result == tree.size
+
+//@ func Tree.Clear
+//@   requires tree != nil
+//@   modifies tree.Root, tree.size
+//@   ensures [C01 C17] tree.Root == nil && tree.size == 0
+
+//@ func setParent
+//@   requires (forall i :: 0 <= i && i < len(nodes) ==> nodes[i] != nil)
+//@   modifies each x like parent where (exists i :: 0 <= i && i < len(nodes) && nodes[i] == x) : x.Parent
+//@   ensures [C01 C07] (forall i :: 0 <= i && i < len(nodes) ==> nodes[i].Parent == parent)
+//@   loop 1:
+//@     invariant 0 - 1 <= rangeindex && rangeindex < len(nodes) && (len(nodes) == 0 ==> rangeindex == 0 - 1)
+//@     invariant (forall i :: 0 <= i && i <= rangeindex ==> nodes[i].Parent == parent)
+//@     decreases len(nodes) - rangeindex
+
+//@ -- splitting an over-full root (exactly m entries, m+1 children unless it is a leaf): both halves respect the fill
+//@ -- bounds, the new root has one entry and two children, children are handed over in order and re-parented (C07)
+//@ func Tree.splitRoot
+//@   requires Cfg(tree) && tree.Root != nil && len(tree.Root.Entries) == tree.m
+//@   requires len(tree.Root.Children) == 0 || len(tree.Root.Children) == tree.m + 1
+//@   requires (forall i :: 0 <= i && i < len(tree.Root.Children) ==> tree.Root.Children[i] != nil)
+//@   requires (forall i, j :: 0 <= i && i < j && j < len(tree.Root.Children) ==> tree.Root.Children[i] != tree.Root.Children[j])
+//@   modifies tree.Root
+//@   modifies each x like tree.Root where (exists i :: 0 <= i && i < len(old(tree.Root).Children) && old(tree.Root).Children[i] == x) : x.Parent
+//@   assert before setParent#2: (forall i, j :: 0 <= i && i < len(left.Children) && 0 <= j && j < len(right.Children) ==> left.Children[i] != right.Children[j])
+//@   assert after setParent#2: (forall i :: 0 <= i && i < len(left.Children) ==> left.Children[i].Parent == left)
+//@   ensures [C07] new-root: fresh(tree.Root) && tree.Root.Parent == nil && len(tree.Root.Entries) == 1 && len(tree.Root.Children) == 2
+//@   ensures [C07] median-up: tree.Root.Entries[0] == old(tree.Root).Entries[fdiv(tree.m - 1, 2)]
+//@   ensures [C07] halves-fresh: fresh(tree.Root.Children[0]) && fresh(tree.Root.Children[1]) && tree.Root.Children[0] != tree.Root.Children[1]
+//@   ensures [C07] halves-parent: tree.Root.Children[0].Parent == tree.Root && tree.Root.Children[1].Parent == tree.Root
+//@   ensures [C07] left-fill: 2 * (len(tree.Root.Children[0].Entries) + 1) >= tree.m && len(tree.Root.Children[0].Entries) <= tree.m - 1
+//@   ensures [C07] right-fill: 2 * (len(tree.Root.Children[1].Entries) + 1) >= tree.m && len(tree.Root.Children[1].Entries) <= tree.m - 1
+//@   ensures [C07] entries-kept: len(tree.Root.Children[0].Entries) + 1 + len(tree.Root.Children[1].Entries) == tree.m
+//@   ensures [C01 C07] left-entries: (forall i :: 0 <= i && i < len(tree.Root.Children[0].Entries) ==> tree.Root.Children[0].Entries[i] == old(tree.Root).Entries[i])
+//@   ensures [C01 C07] right-entries: (forall i :: 0 <= i && i < len(tree.Root.Children[1].Entries) ==> tree.Root.Children[1].Entries[i] == old(tree.Root).Entries[plus(len(tree.Root.Children[0].Entries) + 1, i)])
+//@   ensures [C07] leaf-stays-leaf: len(old(tree.Root).Children) == 0 ==> len(tree.Root.Children[0].Children) == 0 && len(tree.Root.Children[1].Children) == 0
+//@   ensures [C07] children-count: len(old(tree.Root).Children) != 0 ==> len(tree.Root.Children[0].Children) == len(tree.Root.Children[0].Entries) + 1 && len(tree.Root.Children[1].Children) == len(tree.Root.Children[1].Entries) + 1
+//@   ensures [C01 C07] left-children: (forall i :: 0 <= i && i < len(tree.Root.Children[0].Children) ==> tree.Root.Children[0].Children[i] == old(tree.Root).Children[i])
+//@   ensures [C01 C07] right-children: (forall i :: 0 <= i && i < len(tree.Root.Children[1].Children) ==> tree.Root.Children[1].Children[i] == old(tree.Root).Children[plus(len(tree.Root.Children[0].Children), i)])
+//@   ensures [C01 C07] left-reparented: (forall i :: 0 <= i && i < len(tree.Root.Children[0].Children) ==> tree.Root.Children[0].Children[i].Parent == tree.Root.Children[0])
+//@   ensures [C01 C07] right-reparented: (forall i :: 0 <= i && i < len(tree.Root.Children[1].Children) ==> tree.Root.Children[1].Children[i].Parent == tree.Root.Children[1])
